@@ -1,11 +1,12 @@
 package main
 
 import (
-	"os"
 	"fmt"
 	"go/ast"
+	"go/constant"
 	"go/token"
 	"go/types"
+	"os"
 	"strings"
 )
 
@@ -23,6 +24,179 @@ func runC02(p *Prog, r *Report) {
 	c02R4(p, r)
 	// R5: nonce lock-step is a clause of this property too (replayed / reordered / duplicated chunks fail to open)
 	c01R2as(p, r, "C02-R5")
+	c02R6(p, r)
+}
+
+// c02R6: a chunk that failed to open leaves nothing to hand out.
+func c02R6(p *Prog, r *Report) {
+	const rule = "C02-R6"
+	r.Rule(rule, "a failed chunk read leaves nothing to hand out: the connection's left-over window (readBuf[readStart:]) only ever shrinks (readStart += the count a copy / Write reported) except on the err == nil edge of the chunk reader, where readBuf becomes the buffer just filled cut at the reader's count and readStart returns to 0 together; the only other assignment of readBuf is the growth of a nil buffer (length 0)")
+	pkg := p.Pkg("ss2022")
+	nW := 0
+	p.AllFuncs(pkg, func(top *FuncCtx) {
+		for _, fc := range allCtxs(p, top) {
+			info := fc.Info()
+			reads := fc.CallsTo(isFn(mp("ss2022"), "ShadowStreamConn", "read"))
+			// the first payload chunk of a response is opened by its own reader
+			reads = append(reads, fc.CallsTo(isFn(mp("ss2022"), "ShadowStreamClientConn", "readFirstPayloadChunk"))...)
+			guardedByRead := func(v int) *CallSite {
+				for i := range reads {
+					if reads[i].SuccessGuards(v) {
+						return &reads[i]
+					}
+				}
+				return nil
+			}
+			for _, fa := range fc.FieldAccesses(mp("ss2022"), "ShadowStreamConn", map[string]bool{"readStart": true, "readBuf": true}) {
+				if !fa.Write {
+					continue
+				}
+				nW++
+				key := fmt.Sprintf("%s:%s:%s", fc.Name, fa.Field.Name(), exprStr(fc.G.V[fa.V].Node))
+				as, isAs := fc.G.V[fa.V].Node.(*ast.AssignStmt)
+				var rhs ast.Expr
+				if isAs && len(as.Lhs) == len(as.Rhs) {
+					for i, l := range as.Lhs {
+						if ast.Unparen(l) == ast.Expr(fa.Sel) {
+							rhs = as.Rhs[i]
+						}
+					}
+				}
+				if rhs == nil {
+					r.Fail(rule, key, p.posStr(fa.Sel.Pos()), "undecided: the left-over window is modified by something other than a plain assignment")
+					continue
+				}
+				switch fa.Field.Name() {
+				case "readStart":
+					if as.Tok == token.ADD_ASSIGN {
+						// advance by what a copy / Write consumed
+						okAdv := false
+						if o := objOf(info, rhs); o != nil {
+							for _, cs := range fc.AllCalls() {
+								name := ""
+								if cs.Fn != nil {
+									name = cs.Fn.Name()
+								} else if id, ok := ast.Unparen(cs.Call.Fun).(*ast.Ident); ok {
+									name = id.Name
+								}
+								if (name == "copy" || name == "Write" || name == "write") && cs.ResultVar(0) == o && fc.SoleDef(fa.V, o, cs.V) {
+									okAdv = true
+								}
+							}
+						}
+						r.Check(okAdv, rule, key, p.posStr(fa.Sel.Pos()), "advances by the count a copy / Write reported", "readStart advances by something other than the count of bytes handed on")
+						continue
+					}
+					// closing the window: readStart = len(readBuf) of the same connection
+					if call, ok := ast.Unparen(rhs).(*ast.CallExpr); ok && len(call.Args) == 1 && as.Tok == token.ASSIGN {
+						if id, ok := ast.Unparen(call.Fun).(*ast.Ident); ok && id.Name == "len" {
+							if s2, ok := ast.Unparen(call.Args[0]).(*ast.SelectorExpr); ok && s2.Sel.Name == "readBuf" && pathKey(info, s2.X) == pathKey(info, fa.Sel.X) && pathKey(info, s2.X) != "" {
+								r.OK(rule, key, p.posStr(fa.Sel.Pos()), "closes the window (readStart = len(readBuf))")
+								continue
+							}
+						}
+					}
+					rc := guardedByRead(fa.V)
+					k, isC := constInt(info, rhs)
+					okVal := isC && k == 0
+					if !okVal {
+						// the count of a copy out of the very buffer that becomes readBuf here
+						if o := objOf(info, rhs); o != nil {
+							for _, cs := range fc.AllCalls() {
+								id, ok := ast.Unparen(cs.Call.Fun).(*ast.Ident)
+								if !ok || id.Name != "copy" || cs.ResultVar(0) != o || !fc.SoleDef(fa.V, o, cs.V) || len(cs.Call.Args) != 2 {
+									continue
+								}
+								src := objOf(info, cs.Call.Args[1])
+								for _, fb := range fc.FieldAccesses(mp("ss2022"), "ShadowStreamConn", map[string]bool{"readBuf": true}) {
+									if !fb.Write {
+										continue
+									}
+									if a2, ok := fc.G.V[fb.V].Node.(*ast.AssignStmt); ok && len(a2.Lhs) == len(a2.Rhs) {
+										for i, l := range a2.Lhs {
+											if ast.Unparen(l) == ast.Expr(fb.Sel) && src != nil && objOf(info, a2.Rhs[i]) == src && !fc.G.ReachAfter(cs.V, nil, nil)[cs.V] {
+												// nothing redefines the buffer between the copy and the two assignments
+												redef := false
+												for _, d := range fc.Defs(src) {
+													if fc.G.ReachAfter(cs.V, nil, nil)[d] {
+														redef = true
+													}
+												}
+												okVal = !redef
+											}
+										}
+									}
+								}
+							}
+						}
+					}
+					r.Check(as.Tok == token.ASSIGN && rc != nil && okVal, rule, key, p.posStr(fa.Sel.Pos()), "rewound (to 0, or to what was already copied out of the new chunk) only on the chunk reader's err == nil edge", "the read cursor is rewound outside the success edge of the chunk reader: after a chunk that fails to open (or after EOF) the previous chunk's bytes — by then overwritten with unauthenticated input — are handed out again as data")
+				case "readBuf":
+					if rc := guardedByRead(fa.V); rc != nil {
+						// the buffer just filled, cut at the reader's count (or, for the reader that
+						// opens in place without reporting a count, cut one tag short of what it was given)
+						okCut := false
+						if sl, ok := ast.Unparen(rhs).(*ast.SliceExpr); ok && sl.Low == nil && sl.High != nil && len(rc.Call.Args) == 1 {
+							okCut = objOf(info, sl.High) != nil && objOf(info, sl.High) == rc.ResultVar(0) && objOf(info, sl.X) != nil && objOf(info, sl.X) == objOf(info, rc.Call.Args[0])
+						}
+						if !okCut && len(rc.Call.Args) == 1 {
+							if wo := objOf(info, rhs); wo != nil {
+								if fsl, ok := ast.Unparen(rc.Call.Args[0]).(*ast.SliceExpr); ok && fsl.Low == nil && fsl.High != nil && objOf(info, fsl.X) == wo {
+									rd := fc.ReachingDefs(fa.V, wo)
+									if len(rd) == 1 && rd[0] != fc.G.Entry && fc.G.ReachAfter(rc.V, nil, nil)[rd[0]] {
+										if a2, ok := fc.G.V[rd[0]].Node.(*ast.AssignStmt); ok && len(a2.Lhs) == 1 && len(a2.Rhs) == 1 && objOf(info, a2.Lhs[0]) == wo {
+											if wsl, ok := ast.Unparen(a2.Rhs[0]).(*ast.SliceExpr); ok && wsl.Low == nil && wsl.High != nil && objOf(info, wsl.X) == wo {
+												d := linOf(p, fc, fsl.High).add(linOf(p, fc, wsl.High), -1)
+												ts, _ := constIntOfName(p, "ss2022", "tagSize")
+												okCut = len(d) == 1 && d[""] == ts && ts > 0
+											}
+										}
+									}
+								}
+							}
+						}
+						r.Check(okCut, rule, key, p.posStr(fa.Sel.Pos()), "readBuf = the plaintext of the chunk just opened", "readBuf is not the buffer the reader filled cut at the count it reported")
+						if objOf(info, rhs) != nil {
+							continue // the cursor is set by the companion assignment checked above
+						}
+						// … and the cursor returns to 0 with it
+						after := fc.G.ReachAfter(fa.V, func(v *Vertex) bool {
+							a2, ok := v.Node.(*ast.AssignStmt)
+							if !ok || a2.Tok != token.ASSIGN || len(a2.Lhs) != len(a2.Rhs) {
+								return false
+							}
+							for i, l := range a2.Lhs {
+								if s2, ok := ast.Unparen(l).(*ast.SelectorExpr); ok && s2.Sel.Name == "readStart" {
+									if k, isC := constInt(info, a2.Rhs[i]); isC && k == 0 {
+										return true
+									}
+								}
+							}
+							return false
+						}, nil)
+						r.Check(!after[fc.G.Exit], rule, key+":cursor-reset", p.posStr(fa.Sel.Pos()), "readStart = 0 follows on every path", "a new chunk becomes the left-over without the cursor returning to 0: its head is skipped")
+						continue
+					}
+					// growth of a nil buffer
+					okGrow := false
+					if call, ok := ast.Unparen(rhs).(*ast.CallExpr); ok {
+						if fn := Callee(info, call); fn != nil && fn.FullName() == "slices.Grow" && len(call.Args) == 2 {
+							if s2, ok := ast.Unparen(call.Args[0]).(*ast.SelectorExpr); ok && s2.Sel.Name == "readBuf" {
+								nilEdges := fc.TestEdges(func(e ast.Expr) bool {
+									s3, ok := ast.Unparen(e).(*ast.SelectorExpr)
+									return ok && s3.Sel.Name == "readBuf"
+								}, WantNil)
+								okGrow = len(nilEdges) > 0 && fc.G.EdgeDominates(nilEdges, fa.V)
+							}
+						}
+					}
+					r.Check(okGrow, rule, key, p.posStr(fa.Sel.Pos()), "capacity growth of a nil buffer (length stays 0)", "readBuf is assigned outside the success edge of the chunk reader: bytes that were never authenticated can become the left-over that the next Read hands out")
+				}
+			}
+		}
+	})
+	r.Count("leftover_window_writes", nW)
+	r.Floor(rule, 5)
 }
 
 func isDecryptCall(fn *types.Func) bool {
@@ -769,4 +943,14 @@ func c01R2as(p *Prog, r *Report, rule string) {
 		o.Rule = rule
 		r.Obs = append(r.Obs, o)
 	}
+}
+
+// constIntOfName: the value of a package-level integer constant.
+func constIntOfName(p *Prog, rel, name string) (int64, bool) {
+	c, ok := p.Pkg(rel).Types.Scope().Lookup(name).(*types.Const)
+	if !ok {
+		return 0, false
+	}
+	k, exact := constant.Int64Val(constant.ToInt(c.Val()))
+	return k, exact
 }
